@@ -249,8 +249,8 @@ class Env:
     def live(self, r):
         return r == 'default' or r in self.g
 
-    def register(self, r, tname, ops, exact, n):
-        kw = {op: mk_handler(op, tname, n) for op in ops}
+    def register(self, r, tname, ops, exact, n, off=()):
+        kw = {op: (False if op in off else mk_handler(op, tname, n)) for op in ops}
         if r == 'default':
             if exact:
                 glom.register(self.u.real[tname], exact=True, **kw)
